@@ -221,21 +221,8 @@ theorem C10_cursor_push (h : Heap) (pre : List Nat) (p : Nat) (post : List Nat) 
     (hw : WF h (pre ++ p :: post)) :
     ∃ h1 n, push h p v = .ok h1 ∧ WF h1 (pre ++ p :: n :: post) ∧
       abs h1 (pre ++ p :: n :: post) =
-        (abs h (pre ++ p :: post)).take pre.length ++ v :: (abs h (pre ++ p :: post)).drop pre.length := by
-  obtain ⟨h1, e1, w1, _, v1, v2⟩ := push_wf h pre p post v hw
-  refine ⟨h1, h.size, e1, w1, ?_⟩
-  obtain ⟨t1, t2⟩ := take_drop_split h pre p post
-  rw [t1, t2, (abs_split h1 pre p (h.size :: post)).1, List.map_cons, v1]
-  have hne : ∀ j ∈ pre ++ p :: post, j ≠ h.size := fun j hj e => by
-    have := hw.bound j hj; omega
-  congr 1
-  · apply List.map_congr_left
-    intro j hj
-    exact v2 j (hne j (by have := List.mem_of_mem_tail hj; simp only [List.mem_append, List.mem_singleton] at this; simp only [List.mem_append, List.mem_cons]; rcases this with h | h <;> simp [h]))
-  · congr 1
-    apply List.map_congr_left
-    intro j hj
-    exact v2 j (hne j (by simp [hj]))
+        (abs h (pre ++ p :: post)).take pre.length ++ v :: (abs h (pre ++ p :: post)).drop pre.length :=
+  push_abs h pre p post v hw
 
 /-- `Add(vs...)` = `Push; Next` per value: the values are inserted in order at the cursor's position and
 the cursor ends up behind them, on the element it pointed to before (position `i + |vs|`). -/
@@ -245,42 +232,17 @@ theorem C10_cursor_add : ∀ (vs : List Int) (h : Heap) (pre : List Nat) (p : Na
       pre1.length = pre.length + vs.length ∧
       abs h1 (pre1 ++ p1 :: post) =
         (abs h (pre ++ p :: post)).take pre.length ++ vs ++ (abs h (pre ++ p :: post)).drop pre.length := by
-  intro vs
-  induction vs with
-  | nil =>
-    intro h pre p post hw
-    exact ⟨h, pre, p, rfl, hw, rfl, by simp⟩
-  | cons v vs ih =>
-    intro h pre p post hw
-    obtain ⟨h1, n, e1, w1, a1⟩ := C10_cursor_push h pre p post v hw
-    have hn := next_cell h1 pre p n post w1.seg w1.nodup
-    have w1' : WF h1 ((pre ++ [p]) ++ n :: post) := by simpa using w1
-    obtain ⟨h2, pre2, p2, e2, w2, l2, a2⟩ := ih h1 (pre ++ [p]) n post w1'
-    refine ⟨h2, pre2, p2, by simp [add, e1, hn, e2], w2, by simp at l2 ⊢; omega, ?_⟩
-    rw [a2]
-    have hA : abs h1 (pre ++ [p] ++ n :: post) = abs h1 (pre ++ p :: n :: post) := by simp
-    rw [hA, a1]
-    have hlen : ((abs h (pre ++ p :: post)).take pre.length ++ [v]).length = (pre ++ [p]).length := by
-      rw [(take_drop_split h pre p post).1]; simp
-    have hsplit : (abs h (pre ++ p :: post)).take pre.length ++ v :: (abs h (pre ++ p :: post)).drop pre.length =
-        ((abs h (pre ++ p :: post)).take pre.length ++ [v]) ++ (abs h (pre ++ p :: post)).drop pre.length := by simp
-    rw [hsplit, List.take_left' hlen, List.drop_left' hlen]
-    simp
+  intro vs h pre p post hw
+  obtain ⟨h1, pre1, p1, e, w, l, a, _⟩ := add_abs vs h pre p post hw
+  exact ⟨h1, pre1, p1, e, w, l, a⟩
 
 theorem C10_cursor_remove (h : Heap) (pre : List Nat) (p t : Nat) (post : List Nat)
     (hw : WF h (pre ++ p :: t :: post)) :
     ∃ h1, remove h p = .ok (h1, (abs h (pre ++ p :: t :: post)).getD pre.length 0) ∧
       WF h1 (pre ++ p :: post) ∧
       abs h1 (pre ++ p :: post) = (abs h (pre ++ p :: t :: post)).eraseIdx pre.length ∧
-      h1.link t = some t := by
-  obtain ⟨h1, e1, w1, l1, v1, _⟩ := remove_wf h pre p t post hw
-  obtain ⟨a1, a2⟩ := abs_split h pre p (t :: post)
-  have hval : ∀ j, h1.val j = h.val j := fun j => by simp [Heap.val, v1]
-  refine ⟨h1, ?_, w1, ?_, l1⟩
-  · rw [e1, a1, getD_append_at _ _ _ _ a2]; simp
-  · rw [(abs_split h1 pre p post).1, a1, List.eraseIdx_append_of_length_le (by omega), a2, Nat.sub_self]
-    simp only [List.map_cons, List.eraseIdx_cons_zero]
-    congr 1 <;> exact List.map_congr_left (fun j _ => hval j)
+      h1.link t = some t :=
+  remove_abs h pre p t post hw
 
 theorem C10_cursor_remove_at_end (h : Heap) (pre : List Nat) (p : Nat) (hw : WF h (pre ++ [p])) :
     remove h p = .ok (h, 0) := remove_end h pre p hw
@@ -289,12 +251,8 @@ theorem C10_cursor_truncate (h : Heap) (pre : List Nat) (p : Nat) (post : List N
     (hw : WF h (pre ++ p :: post)) :
     ∃ h1, truncate h p = .ok h1 ∧ WF h1 (pre ++ [p]) ∧
       abs h1 (pre ++ [p]) = (abs h (pre ++ p :: post)).take pre.length ∧
-      ∀ j ∈ post, h1.link j = some j := by
-  obtain ⟨h1, e1, w1, l1, v1, _⟩ := truncate_wf h pre p post hw
-  refine ⟨h1, e1, w1, ?_, l1⟩
-  rw [(take_drop_split h pre p post).1, (abs_split h1 pre p []).1]
-  simp only [List.map_nil, List.append_nil]
-  exact List.map_congr_left (fun j _ => by simp [Heap.val, v1])
+      ∀ j ∈ post, h1.link j = some j :=
+  truncate_abs h pre p post hw
 
 theorem C10_cursor_set (h : Heap) (pre : List Nat) (p t : Nat) (post : List Nat) (v : Int)
     (hw : WF h (pre ++ p :: t :: post)) :
